@@ -379,6 +379,9 @@ VARIANTS += [
     V("rev-F49", ["C08"], C, "            matrix2d = [\n                [pt0 * pt1 for pt1 in other.ctrlpoints] for pt0 in self.ctrlpoints\n            ]\n            matrix3d = np.array(matrix3d)\n            matrix2d = np.array(matrix2d)\n            ctrlpoints = [\n                np.tensordot(matrix3d[:, i, :], matrix2d, axes=2)\n                for i in range(matrix3d.shape[1])\n            ]\n            curve = Curve(vectmul, ctrlpoints)\n", "            ctrlpoints = np.tensordot(\n                np.moveaxis(self.ctrlpoints, 0, -1), matrix3d, axes=1\n            )\n            ctrlpoints = ctrlpoints @ other.ctrlpoints\n            curve = Curve(vectmul, ctrlpoints)\n", "AXIS-FIRST", "__mul__", "coordinate axis of the left operand first"),
     V("mul-table-transposed", ["C08"], C, "                [pt0 * pt1 for pt1 in other.ctrlpoints] for pt0 in self.ctrlpoints\n", "                [pt0 * pt1 for pt0 in self.ctrlpoints] for pt1 in other.ctrlpoints\n", "AXIS-ORDER", "__mul__", "table of pairwise products of A * B transposed"),
     V("twin-mul-moveaxis-back", ["C08"], C, "            matrix2d = [\n                [pt0 * pt1 for pt1 in other.ctrlpoints] for pt0 in self.ctrlpoints\n            ]\n            matrix3d = np.array(matrix3d)\n            matrix2d = np.array(matrix2d)\n            ctrlpoints = [\n                np.tensordot(matrix3d[:, i, :], matrix2d, axes=2)\n                for i in range(matrix3d.shape[1])\n            ]\n", "            table = np.array([[pt0 * pt1 for pt1 in other.ctrlpoints] for pt0 in self.ctrlpoints])\n            cube = np.array(matrix3d)\n            ctrlpoints = [np.tensordot(cube[:, j, :], table, axes=2) for j in range(cube.shape[1])]\n", None, None, "the same table with other local names", twin=True),
+    V("rev-F50", ["C15"], C, "        nodes = tuple(nodes)\n        for node in nodes:\n            float(node)  # Verify if it's a number, before any removal\n        nodes = tuple(set(nodes) - set(self.knotvector.limits))\n", "        nodes = tuple(set(nodes) - set(self.knotvector.limits))\n", "COMMIT-LOOP", "knot_clean", "elements of nodes validated between commits"),
+    V("twin-knot-clean-valid-first", ["C15", "C14"], C, "        nodes = tuple(nodes)\n        for node in nodes:\n            float(node)  # Verify if it's a number, before any removal\n        nodes = tuple(set(nodes) - set(self.knotvector.limits))\n", "        nodes = list(nodes)\n        [float(node) for node in nodes]\n        nodes = tuple(set(nodes) - set(self.knotvector.limits))\n", None, None, "all nodes probed by a comprehension before the loop", twin=True),
+    V("twin-degree-setter-raise-valueerror", ["C15", "C03"], K, "        diff = int(value) - self.degree\n", "        if int(value) < 0:\n            raise ValueError(\"negative degree\")\n        diff = int(value) - self.degree\n", None, None, "negative degree refused with ValueError", twin=True),
     V("twin-derivative-rows-generator", ["C09"], H, "        rows = [\n            i\n            for i in range(knotvector.npts)\n            if knotvector[i + degree] != knotvector[i]\n        ]\n        matrix = np.transpose(matrix)[rows]\n", "        rows = list(i for i in range(1, knotvector.npts) if knotvector[i] < knotvector[i + degree])\n        matrix = np.transpose(matrix)[rows]\n", None, None, "rows selected with a generator and a strict comparison", twin=True),
 ]
 
